@@ -354,6 +354,9 @@ func genC14(seed uint64, r *Rng, idx, vecs int) *C14Case {
 			delete(g.feat, "errors")
 			if i < n-1 && i < 3 {
 				for j := i + 1; j < n; j++ {
+					if countText(cs.Files[j].Tree) > 1<<20 {
+						continue // a multi-megabyte file is included once, from the root's top level, never from a place that may be in a loop
+					}
 					g.incArgs = append(g.incArgs, argsFor(j)[:3]...)
 				}
 			}
@@ -400,6 +403,10 @@ func genC14(seed uint64, r *Rng, idx, vecs int) *C14Case {
 	g := NewGen(gr2.Fork(99), gr2.Range(4, 20))
 	delete(g.feat, "errors")
 	for i := range cs.Files {
+		if countText(cs.Files[i].Tree) > 1<<20 {
+			argsFor(i) // (registers what the arguments denote)
+			continue
+		}
 		g.incArgs = append(g.incArgs, argsFor(i)...)
 	}
 	if gr2.Chance(0.3) {
@@ -423,6 +430,9 @@ func genC14(seed uint64, r *Rng, idx, vecs int) *C14Case {
 		g2 := NewGen(gr2.Fork(98), gr2.Range(2, 10))
 		delete(g2.feat, "errors")
 		for i := range cs.Files {
+			if countText(cs.Files[i].Tree) > 1<<20 {
+				continue
+			}
 			for _, a := range argsFor(i)[:2] {
 				g2.incArgs = append(g2.incArgs, quote(up+strings.Trim(a, `"'`)))
 			}
@@ -1315,6 +1325,15 @@ func c14Find(c *Ctx, cs *C14Case, scratch, tag string, out *CaseOut, wantSig str
 				}
 			}
 		}
+		if len(base.res.Out) > 32<<20 {
+			// a multi-megabyte file included from inside loops: hundreds of megabytes per render.
+			// Nothing is wrong with that, but every further execution of this case would cost
+			// seconds: no verdict for the rest of the case (deterministic; counted)
+			if c != nil {
+				c.count("output_over_32MiB_case_cut_short", 1)
+			}
+			return true
+		}
 		if base.res.Panic != "" {
 			// the fault-free render panics: a C01 matter; nothing about include can be judged
 			if step == 0 {
@@ -1324,6 +1343,14 @@ func c14Find(c *Ctx, cs *C14Case, scratch, tag string, out *CaseOut, wantSig str
 			return false
 		}
 		if record(&base, -1, "", step) {
+			return true
+		}
+		if len(base.res.Out) > 4<<20 {
+			// megabytes per render: the fault-free render has been judged; the fault enumeration
+			// and the rest of the history would cost minutes (deterministic; counted)
+			if c != nil {
+				c.count("output_over_4MiB_fault_enumeration_skipped", 1)
+			}
 			return true
 		}
 		// fault enumeration over every file-system call of this render
@@ -1366,6 +1393,12 @@ func c14Find(c *Ctx, cs *C14Case, scratch, tag string, out *CaseOut, wantSig str
 					o = x.mainRender(map[int]error{j: en.err})
 				}
 				spent += len(o.res.Out) + 1
+				if len(o.res.Out) > 4<<20 {
+					if c != nil {
+						c.count("output_over_4MiB_faulted_execution_case_cut_short", 1)
+					}
+					return true // (see above: no verdict for the rest of this case)
+				}
 				fired := false
 				exact := true // every read of p in THIS execution failed: "p absent" is the exact reference
 				for _, call := range o.fs {
@@ -1444,6 +1477,13 @@ func (ck c14) RunCase(c *Ctx, idx int) *CaseOut {
 	cs := genC14(c.Seed, r, idx, vecs)
 	wrapIncludes = true
 	cs.Source = Source(cs.Root)
+	if os.Getenv("VERIF_DEBUG_CASE") != "" { // debugging aid
+		fmt.Fprintf(os.Stderr, "case %d root %q\n", idx, clip(cs.Source))
+		for _, f := range cs.Files {
+			fmt.Fprintf(os.Stderr, "  file %q state %s size %d: %q\n", f.Rel, stNames[f.State], countText(f.Tree), clip(Source(f.Tree)))
+		}
+		fmt.Fprintf(os.Stderr, "  history %v loop=%v\n", cs.History, cs.Loop != nil)
+	}
 	out := &CaseOut{}
 	tag := fmt.Sprintf("c%d", idx)
 	fails := c14Find(c, cs, c.Scratch, tag, out, "")
